@@ -29,14 +29,25 @@ type Ctx struct {
 	Driver   string
 	Stats    map[string]int
 	From     int
+	Upto     int
 	variants map[int]int
 }
 
-func (c *Ctx) want(i int) bool { return c.Only < 0 || c.Only == i }
+// want: `-only i` runs case i alone; `-upto i` runs cases 0..i in this process and records case i alone (for
+// rejections that depend on the calls made earlier in the same process).
+func (c *Ctx) want(i int) bool {
+	if c.Upto >= 0 {
+		return i <= c.Upto
+	}
+	return c.Only < 0 || c.Only == i
+}
 
 func (c *Ctx) gen(i int) *Gen { return NewGen(c.Seed*1000003 + int64(i)*7919 + 17) }
 
 func (c *Ctx) emit(i int, ev J) {
+	if c.Upto >= 0 && i != c.Upto {
+		return
+	}
 	if _, ok := ev["variant"]; !ok {
 		// several events of one case are told apart by their position within the case
 		if c.variants == nil {
@@ -91,6 +102,7 @@ func main() {
 	fs.StringVar(&c.Tier, "tier", "quick", "tier")
 	fs.StringVar(&c.In, "in", "", "input file (replayers)")
 	fs.StringVar(&c.Arg, "arg", "", "driver-specific argument")
+	fs.IntVar(&c.Upto, "upto", -1, "run cases 0..upto, record only the last one")
 	fs.IntVar(&c.From, "from", 0, "first case index (isolated-worker drivers)")
 	appendOut := fs.Bool("append", false, "append to the output file")
 	outPath := fs.String("out", "", "output NDJSON file")
